@@ -27,7 +27,7 @@ func init() {
 		Doc: "Constructors set the incarnation: every Footer / segmentStack / collection literal that is stored into a child map (childSegStacks, ChildFooters, childCollections), directly or as the " +
 			"result of the function that builds it, stores incarNum. Exception: revertToSnapshot (revert is specified with the collection closed; restoreCollection renumbers the tree on the next open).",
 		Props:      []string{"C11", "C07", "C04"},
-		Floor: 4,
+		Floor:      4,
 		Run:        ruleInc2,
 		Exceptions: []string{"(*Store).revertToSnapshot: Footer literal without incarNum – revert happens with the collection closed; restoreCollection renumbers on the next open"},
 	})
